@@ -927,6 +927,15 @@ func modelRun(j *orch.Job, r *orch.Result) error {
 		}
 	}
 	if err != nil {
+		if errors.Is(err, harness.ErrWedged) {
+			if le := harness.LastDaemonError(); strings.Contains(le, "insufficient balance") {
+				// the chain stops because a debit found less than it wanted to take: a batch that asks for more than
+				// its input address holds when it executes was let through the checks that must reject it whole
+				s, _ := n.Synced()
+				r.Violate("C03", "overdrawing-batch-not-rejected block-cannot-be-applied", fmt.Sprintf("block %d cannot be applied: %s — an overdrawing batch passed the balance checks and failed at the debit, instead of being rejected as a whole", s+1, le),
+					map[string]interface{}{"eras": e, "height": s + 1, "seed": p.Seed, "features": p.Features})
+			}
+		}
 		if errors.Is(err, harness.ErrWedged) || errors.Is(err, harness.ErrFatal) {
 			r.Inconclusive = append(r.Inconclusive, "chain stopped (liveness is C08's subject): "+err.Error())
 			return nil
